@@ -581,7 +581,7 @@ def generate(template_path, out_path, features=None):
 
 
 ASSUMPTION_PATTERNS = [
-    ("assume_specification", r"assume_specification\s*(?:<[^>]*>)?\s*\[\s*([^\]]+)\]"),
+    ("assume_specification", r"assume_specification[^\[;{]*\[\s*([^\]]+)\]"),
     ("external_body", r"#\[verifier::external_body\]\s*(?:pub\s+)?(?:proof\s+|spec\s+|exec\s+)?fn\s+(\w+)"),
     ("external_type_specification", r"#\[verifier::external_type_specification\]"),
     ("assume", r"\bassume\s*\(([^;]*)\)\s*;"),
@@ -602,6 +602,16 @@ def scan_assumptions(text):
             arg = " ".join(m.group(1).split()) if m.groups() and m.group(1) else ""
             found.append("verus %s%s" % (label, (": " + arg) if arg else ""))
     return found
+
+
+def scan_standins(template_text):
+    """types written by hand in a unit template (abstract stand-ins for types the extracted code mentions)"""
+    mask = code_mask(template_text)
+    out = []
+    for m in re.finditer(r"(?m)^\s*pub (?:struct|enum) (\w+)", template_text):
+        if mask[m.start()]:
+            out.append("verus hand-written stand-in type (not extracted from /repo): %s" % m.group(1))
+    return out
 
 
 def run_verus(gen_path, rlimit=None, timeout=900):
